@@ -13,6 +13,7 @@ import (
 	"github.com/spq/pkappa2/verifx/c03"
 	"github.com/spq/pkappa2/verifx/c07"
 	"github.com/spq/pkappa2/verifx/c11"
+	"github.com/spq/pkappa2/verifx/c12"
 	"github.com/spq/pkappa2/verifx/c14"
 	"github.com/spq/pkappa2/verifx/c04"
 	"github.com/spq/pkappa2/verifx/c05"
@@ -27,6 +28,7 @@ import (
 func main() {
 	prop := flag.String("prop", "", "property id")
 	tier := flag.String("tier", "quick", "quick|thorough")
+	c12Journal := flag.String("c12-journal", "", "internal: run a C12 history in VERIF_WORLD_DIR (under strace)")
 	svcReplay := flag.String("svc-replay", "", "scenario|event;event;... : replay one service history and print every state")
 	flag.Parse()
 	log.SetOutput(io.Discard) // the code under test logs every import/merge
@@ -34,6 +36,9 @@ func main() {
 		*tier = t
 	}
 	var code int
+	if *c12Journal != "" {
+		os.Exit(c12.JournalChild(*c12Journal))
+	}
 	if *svcReplay != "" {
 		sc, p, _ := strings.Cut(*svcReplay, "|")
 		var path []string
@@ -67,6 +72,8 @@ func main() {
 		code = c07.Run(*tier)
 	case "C11":
 		code = c11.Run(*tier)
+	case "C12":
+		code = c12.Run(*tier)
 	case "C14":
 		code = c14.Run(*tier)
 	case "C18":
